@@ -92,6 +92,16 @@ func globalRoot(v ssa.Value, depth int) *ssa.Global {
 		return globalRoot(a.X, depth+1)
 	case *ssa.Index:
 		return globalRoot(a.X, depth+1)
+	case *ssa.Extract:
+		// key / value of ranging over a package-level map
+		if n, ok := a.Tuple.(*ssa.Next); ok {
+			if r, ok := n.Iter.(*ssa.Range); ok {
+				return globalRoot(r.X, depth+1)
+			}
+		}
+		if l, ok := a.Tuple.(*ssa.Lookup); ok {
+			return globalRoot(l.X, depth+1)
+		}
 	}
 	return nil
 }
@@ -130,11 +140,26 @@ func globalWrites(P *Program, fn *ssa.Function) []string {
 				if g := globalRoot(x.Val, 0); g != nil && isRefType(x.Val.Type()) {
 					if _, direct := x.Val.(*ssa.Global); direct {
 						out = append(out, fmt.Sprintf("address of %s stored at %s", g.Name(), at(ins)))
+					} else if globalRoot(x.Addr, 0) == nil {
+						out = append(out, fmt.Sprintf("memory of %s stored into another object at %s (shared, not copied)", g.Name(), at(ins)))
 					}
 				}
 			case *ssa.MapUpdate:
 				if g := globalRoot(x.Map, 0); g != nil {
 					out = append(out, fmt.Sprintf("map update on %s at %s", g.Name(), at(ins)))
+				}
+				// memory reachable from a package-level variable (a map, slice or pointer held in it) becomes part
+				// of another object: whoever writes through that object writes package-level state
+				if g := globalRoot(x.Value, 0); g != nil && isRefType(x.Value.Type()) {
+					out = append(out, fmt.Sprintf("memory of %s stored into a map at %s (shared, not copied)", g.Name(), at(ins)))
+				}
+			case *ssa.Return:
+				for _, r := range x.Results {
+					if g := globalRoot(r, 0); g != nil && isRefType(r.Type()) {
+						if _, direct := r.(*ssa.Global); !direct {
+							out = append(out, fmt.Sprintf("memory of %s returned at %s (shared, not copied)", g.Name(), at(ins)))
+						}
+					}
 				}
 			case ssa.CallInstruction:
 				com := x.Common()
